@@ -122,6 +122,13 @@ func binaryAtoms() []rawAtom {
 	add("negative-zero-int", 0x30)
 	add("negative-zero-int", 0x31, 0x00)
 	add("negative-zero-int", 0x32, 0x00, 0x00)
+	for n := 3; n <= 24; n++ { // zero magnitudes of every width (int64 and big.Int decoding paths)
+		hdr := []byte{0x30 | byte(n)}
+		if n >= 14 {
+			hdr = []byte{0x3E, 0x80 | byte(n)}
+		}
+		out = append(out, rawAtom{"negative-zero-int-wide", append(hdr, make([]byte, n)...)})
+	}
 	add("float-length", 0x41, 0x00)
 	add("float-length", 0x42, 0x00, 0x00)
 	add("float-length", 0x43, 0, 0, 0)
